@@ -23,6 +23,14 @@ def verify(wt, sid, regex, pkg):
     patch = os.path.join(seed, "patch.diff")
     rec = {"when": time.strftime("%Y-%m-%dT%H:%M:%SZ", time.gmtime())}
     demo_cmd = ["go", "test", "-vet=off", "-count=1", "-run", regex, pkg]
+    # the tree that is judged is exactly HEAD + SEED/patch.diff (+ the untracked demonstration), whatever the
+    # author left behind; SEED/ is kept out of the main module so that its demo copy is not built as a package
+    sh(["git", "checkout", "--", "."], wt)
+    rc, out = sh(["git", "apply", patch], wt)
+    if rc != 0:
+        print("patch does not apply to a clean checkout:", out); return 2
+    if not os.path.exists(os.path.join(seed, "go.mod")):
+        open(os.path.join(seed, "go.mod"), "w").write("module seed\n")
     rc1, out1 = sh(demo_cmd, wt)
     rec["demo_with_change"] = "FAIL" if rc1 != 0 else "PASS"
     rc, out = sh(["git", "apply", "-R", patch], wt)
